@@ -318,6 +318,9 @@ def assign_iterable(lhs, rhs, other, ctx):
         lhs[rhs] = other
         return vy_sum(lhs, ctx=ctx)
     else:
+        # Work on a copy: the argument may still be referenced elsewhere
+        # (a duplicate on the stack, a variable, the register)
+        lhs = lhs[:] if type(lhs) is list else deep_copy(lhs)
         lhs[rhs] = other
         return lhs
 
@@ -1280,7 +1283,7 @@ def gen_from_fn(lhs, rhs, ctx):
     def gen():
         yield from lhs
 
-        made = lhs
+        made = list(lhs)
 
         while True:
             next_item = safe_apply(rhs, *made, ctx=ctx)
